@@ -85,6 +85,9 @@ def _ast_shape(ast) -> str:
     return ",".join(sorted(G.productions(ast)))
 
 
+TINY_BASES = ["{ }", "[ { } ]", "[ { } { } ]", "{ a = { }; }", "x: { }", "[ [ ] ]", "{ a = [ ]; }", "f { }", "({ })", "[ { } 1 ]", "{ a = { }; b = 1; }", "rec { }", "[ rec { } ]", "let a = { }; in a", "{ a = [ { } ]; }", "with { }; [ ]", "{ inherit ({ }) a; }"]
+
+
 def run_shard(sh, cfg: Config):
     examples = int(sh.params["examples"] * sh.params.get("scale", 1.0))
     one_per = any(q.get("flags", {}).get("one_comment_per_construct") for q in (sh.quarantine or []))
@@ -116,6 +119,11 @@ def run_shard(sh, cfg: Config):
             return
         sh.now(n)
         ast, base, broken = G.program(n, include_uri=cfg.include_uri, empty_let=empty_let, merge_pairs=merge_pairs)
+        r = random.Random(n ^ 0xA5A5A5)
+        tiny = n % 11 == 0
+        if tiny:
+            # hand-sized programs with trivia in every gap at once: empty containers inside containers, at the end of a file
+            ast, base, broken = ("id", "tiny"), r.choice(TINY_BASES), False
         if not cst.env_ok(base):
             sh.notes["env-size-limit"] += 1
             return
@@ -123,8 +131,7 @@ def run_shard(sh, cfg: Config):
         if base_tree.root.has_error:
             sh.notes["generator-invalid"] += 1
             return
-        r = random.Random(n ^ 0xA5A5A5)
-        text, perts, gaps, _bt, dropped = T.inject(r, base, injector, tree=base_tree)
+        text, perts, gaps, _bt, dropped = T.inject(r, base, injector, mode=("all" if tiny and r.random() < 0.7 else None), tree=base_tree)
         if dropped:
             sh.notes["unsound-perturbation-dropped"] += dropped
         if not cst.env_ok(text):
